@@ -1386,6 +1386,15 @@ pub fn c08(tier: &str) -> (Vec<Space>, Focus) {
     }));
     v.extend(wide_interrupt_spaces(tier, true));
     v.extend(wide_interrupt_task_spaces(tier));
+    v.push(space(&format!("signal sent by a user future from inside the poll (when it first runs or just before it returns), 10 _with APIs x order x limit{{None,1,2}} x 9 strategy/flag combinations, shapes n<={nmax}"), shapes_upto(1, nmax, true), None, |s| {
+        let mut c = cfgs_interrupt(s.n, &Api::all_with(), &[None, Some(1), Some(2)], &REVS, &STRATS_FULL);
+        for j in c.iter_mut() {
+            if let JobCfg::S(r) = j {
+                r.mid_poll_int = true;
+            }
+        }
+        c
+    }));
     v.push(space("StreamOpts builder methods called in every order (interrupt armed), shapes 1<=n<=3", shapes_upto(1, 3, false), None, |s| {
         cfgs_opts_orders(s.n, &Api::all_with(), &[None, Some(1)], true)
     }));
